@@ -161,6 +161,7 @@ pub fn c10_sanity() -> i32 {
 }
 
 pub fn c10_resolve() -> i32 {
+    panic::set_hook(Box::new(|_| {}));
     let mut tried = 0;
     let mut found = None;
     'o: for n in 0..4usize {
@@ -169,12 +170,13 @@ pub fn c10_resolve() -> i32 {
         let gen = TypeGenerator::new(&reg, &settings);
         for id in [0u32, 1, 2, 3, 4, 7, u32::MAX] {
             tried += 1;
-            let r = gen.resolve_type(id);
+            let r = panic::catch_unwind(panic::AssertUnwindSafe(|| gen.resolve_type(id)));
             let why = match r {
-                Ok(t) if (id as usize) < n => if std::ptr::eq(t, &reg.types[id as usize].ty) { None } else { Some("resolved to a different entry".to_string()) },
-                Ok(_) => Some("resolved a missing id".into()),
-                Err(TypegenError::TypeNotFound(x)) if (id as usize) >= n => if x == id { None } else { Some(format!("TypeNotFound names {x}")) },
-                Err(e) => Some(format!("unexpected error {e}")),
+                Err(_) => Some("panic".to_string()),
+                Ok(Ok(t)) if (id as usize) < n => if std::ptr::eq(t, &reg.types[id as usize].ty) { None } else { Some("resolved to a different entry".to_string()) },
+                Ok(Ok(_)) => Some("resolved a missing id".into()),
+                Ok(Err(TypegenError::TypeNotFound(x))) if (id as usize) >= n => if x == id { None } else { Some(format!("TypeNotFound names {x}")) },
+                Ok(Err(e)) => Some(format!("unexpected error {e}")),
             };
             if let Some(w) = why { found = Some((format!("resolve_type({id}) on a registry of {n} types"), w)); break 'o; }
         }
